@@ -24,6 +24,72 @@ mod progs;
 mod structspace;
 mod wgpucheck;
 
+/// Counting allocator: bytes live / peak per thread (the generator is single-threaded with the formatter off, so the
+/// peak reached during one call on the calling thread is that call's memory high-water mark). Used by C20.
+pub mod memcount {
+    use std::alloc::{GlobalAlloc, Layout, System};
+    use std::cell::Cell;
+    thread_local! {
+        static LIVE: Cell<i64> = const { Cell::new(0) };
+        static PEAK: Cell<i64> = const { Cell::new(0) };
+    }
+    pub struct Counting;
+    #[inline]
+    fn add(d: i64) {
+        let _ = LIVE.try_with(|c| {
+            let v = c.get() + d;
+            c.set(v);
+            if d > 0 {
+                let _ = PEAK.try_with(|p| {
+                    if v > p.get() {
+                        p.set(v)
+                    }
+                });
+            }
+        });
+    }
+    unsafe impl GlobalAlloc for Counting {
+        unsafe fn alloc(&self, l: Layout) -> *mut u8 {
+            let p = System.alloc(l);
+            if !p.is_null() {
+                add(l.size() as i64);
+            }
+            p
+        }
+        unsafe fn alloc_zeroed(&self, l: Layout) -> *mut u8 {
+            let p = System.alloc_zeroed(l);
+            if !p.is_null() {
+                add(l.size() as i64);
+            }
+            p
+        }
+        unsafe fn dealloc(&self, p: *mut u8, l: Layout) {
+            System.dealloc(p, l);
+            add(-(l.size() as i64));
+        }
+        unsafe fn realloc(&self, p: *mut u8, l: Layout, new: usize) -> *mut u8 {
+            let q = System.realloc(p, l, new);
+            if !q.is_null() {
+                add(new as i64 - l.size() as i64);
+            }
+            q
+        }
+    }
+    /// Starts a measurement on this thread: the peak is reset to the current live count, which is returned.
+    pub fn start() -> i64 {
+        let live = LIVE.with(|c| c.get());
+        PEAK.with(|p| p.set(live));
+        live
+    }
+    /// Bytes above `base` at the high-water mark since `start()`.
+    pub fn peak_above(base: i64) -> u64 {
+        (PEAK.with(|p| p.get()) - base).max(0) as u64
+    }
+}
+
+#[global_allocator]
+static ALLOCATOR: memcount::Counting = memcount::Counting;
+
 fn main() {
     let args: Vec<String> = std::env::args().collect();
     if args.first().map(|a| a.ends_with("rustfmt")).unwrap_or(false) {
@@ -81,6 +147,15 @@ fn main() {
                 }
             }
             other => println!("{other:?}"),
+        }
+        return;
+    }
+    if args[1] == "prior-calls" {
+        // explore prior-calls: the history calls of the single-call checks and what each does on this tree
+        for (name, src, validate) in common::prior_calls() {
+            let cfg = common::Config { validate: if validate { common::Validate::All } else { common::Validate::Off }, ..Default::default() };
+            let o = common::generate_with_unguarded(&src, None, cfg.options());
+            println!("{name}: {}", o.class().chars().take(120).collect::<String>());
         }
         return;
     }
